@@ -37,7 +37,9 @@ def execute(cfgs, parallel=None, timeout=240, env_extra=None, label='run'):
         try:
             r = runs.run_ddsmt(wd, text, spec, opts, timeout=timeout,
                                env_extra=ee, ext=meta.get('ext', '.smt2'),
-                               cc_spec=meta.get('cc_spec'))
+                               cc_spec=meta.get('cc_spec'),
+                               same_basename=meta.get('same_basename',
+                                                      False))
         finally:
             if sch:
                 sch.stop()
